@@ -502,7 +502,8 @@ def stop_hook_family(cfgs: list) -> list:
     completed, disturbed or abandoned, and a further attempt must be accepted afterwards."""
     out = []
     ends = [("ev", "disconnect", False), ("ev", "disconnect", True), ("ev", "eof"), ("ev", "reset"), ("ev", "chunk", [{"k": "discreq"}]),
-            ("ev", "chunk", [{"k": "garbage"}]), ("tick",), ("wf", "switch_command"), ("wf", "device_info"), ("wf", "subscribe_states"), ("wf", "disconnect")]
+            ("ev", "chunk", [{"k": "garbage"}]), ("tick",), ("wf", "switch_command"), ("wf", "device_info"), ("wf", "subscribe_states"), ("wf", "disconnect"),
+            ("dw", ("ev", "eof")), ("dw", ("ev", "reset")), ("dw", ("ev", "chunk", [{"k": "discresp"}])), ("dw", ("ev", "chunk", [{"k": "garbage"}]))]
     for base in cfgs:
         for hook in ("start", "api", "none"):
             cfg = dict(base, hook=hook)
@@ -514,7 +515,11 @@ def stop_hook_family(cfgs: list) -> list:
                 for end in ends:
                     for g in ([], [("iter", 1)], [("idle",)]):
                         for after in ("complete", "fail", "disconnect", "second_start"):
-                            if end[0] == "wf":
+                            if end[0] == "dw":
+                                # a graceful disconnect() is waiting for the device's answer when the session is lost: the stop
+                                # callback (which may reconnect) runs first, the disconnect() call resumes afterwards
+                                sch = list(pre) + [("ev", "disconnect", False)] + g + [end[1]] + g
+                            elif end[0] == "wf":
                                 # the transport starts failing its writes; the next call (or a graceful disconnect) hits it
                                 nxt = ("ev", "disconnect", False) if end[1] == "disconnect" else ("ev", "api", end[1])
                                 sch = list(pre) + [("ev", "writefail")] + g + [nxt] + g + [("ev", "api", "switch_command")] + g
